@@ -68,6 +68,7 @@ type Expr struct {
 	Args  []*Expr  `json:"args,omitempty"`
 	Neg   bool     `json:"neg,omitempty"` // match: !~
 	PatV  *Pattern `json:"patv,omitempty"`
+	Post  string   `json:"post,omitempty"` // mread: "++" or "--": the metric is incremented and the expression yields its new value
 }
 
 // Stmt is a statement node.
